@@ -2374,6 +2374,8 @@ class FST:
             raise ValueError('cannot delete root node')
         if options.get('to'):
             raise ValueError("cannot replace root node with 'to' option")
+        if code is self:  # don't allow own root to be put to self
+            raise ValueError('circular put detected')
 
         with self._modifying():
             code = code_as_all(code, options, self._parse_params)
